@@ -238,3 +238,61 @@ def gen_run_cases(seed, tier):
         cases.append({"policy": pol, "tokens": toks, "kind": r.choice(list(KINDS)), "n": n, "bad": bad,
                       "place": r.choice(["first", "last"]), "from0": r.random() < 0.25})
     return cases
+
+
+# ---- errors in components brought in by import() -------------------------------------------------
+IMPORTABLE = ["args", "args2", "assign", "assignpy", "righthand"]
+
+
+def case_import(case):
+    """case: {policy, tokens, kind, n, bad, method}: the erroring component is written in another named csvpath and brought in with
+    import(); the run must handle its errors exactly as it handles them when the component is written inline (which `case_run`
+    judges against the policy)"""
+    import real_group as RG
+    import realenv
+
+    comp, col = KINDS[case["kind"]]
+    n = case["n"]
+    recs = [["a", "n", "d"]]
+    for i in range(1, n + 1):
+        bad = i in case["bad"]
+        recs.append(["x" if (bad and col == "a") else str(i), "7", "0" if (bad and col == "d") else "2"])
+    vm = ", ".join(case["tokens"]) if case["tokens"] is not None else None
+    cm = f"validation-mode: {vm} " if vm else ""
+    marker = 'push("seen", line_number())'
+    res = {"case": case, "disagree": [], "oracle": [], "nontrivial": bool(case["bad"])}
+    obs = {}
+    for variant in ("inline", "import"):
+        realenv.reset_dirs()
+        cp = RG.new_csvpaths(policy=["collect"], csvpath_policy=case["policy"])
+        cp.paths_manager.add_named_paths(name="libs", paths=[f"~ id: lib ~ $[*][{comp}]"])
+        body = comp if variant == "inline" else "import($libs.csvpaths.lib)"
+        RG.setup_group(cp, "main", [f"~ id: m {cm}~ $[1*][{marker} {body}]"], "food", recs)
+        caller, mobs, raised = RG.run_group(cp, "main", "food", case["method"])
+        if not mobs:
+            obs[variant] = {"raised": raised}
+            continue
+        m = mobs[0]
+        obs[variant] = {"raised": raised, "lines": m["lines"] if case["method"] != "fast_forward_paths" else None,
+                        "error_lines": sorted(e[0] for e in m["errors"]), "valid": m["valid"], "stopped": m["stopped"],
+                        "printed": len(m["printouts"]), "seen": (m["variables"] or {}).get("seen")}
+    if obs["inline"] != obs["import"]:
+        res["oracle"].append({"what": "an error in a component brought in by import() is handled differently from the same component written inline",
+                              "inline": obs["inline"], "import": obs["import"]})
+    return res
+
+
+def gen_import_cases(seed, tier):
+    r = rng(seed, "errors-import")
+    cases = []
+    for i in range(60 if tier == "quick" else 3000):
+        mask = r.randint(0, 63)
+        pol = [WORDS[j] for j in range(6) if mask >> j & 1 and WORDS[j] != "raise"]
+        toks = None
+        if r.random() < 0.3:
+            toks = [t for t in (r.choice([f, "no-" + f, None]) for f in FAMS if f != "raise") if t] or None
+        n = r.randint(2, 5)
+        bad = sorted(r.sample(range(1, n + 1), r.choice([1, 1, 2])))
+        cases.append({"policy": pol, "tokens": toks, "kind": r.choice(IMPORTABLE), "n": n, "bad": bad,
+                      "method": r.choice(["collect_paths", "collect_paths", "fast_forward_paths", "collect_by_line"])})
+    return cases
